@@ -39,23 +39,26 @@ CONSTANTS NI0, NI1,    \* interval ids per year file
           Kinds,       \* subset of {"fixed", "variable"}
           Classes,     \* subset of {"intraday", "daily"}  (daily: slot index = day of year - 1, Jan 1 never stored)
           Mode,        \* "range" (C11) | "limit" (C12) | "multi" (C13)
-          ChunkCode,   \* decimal digits c_1..c_NI0: read-buffer chunk of every year-0 interval id, counted back
-                       \* from the file end (cfg files cannot hold tuples)
+          ChunkCodes,  \* set of chunk codes to enumerate when UseSample = FALSE.  A chunk code has the decimal
+                       \* digits c_1..c_NI0: the read-buffer chunk of every year-0 interval id, counted back from
+                       \* the end of the year file (cfg files cannot hold tuples)
           ColMax,      \* multi mode: longest column list
           UseSample,   \* FALSE: every stored content; TRUE: only the contents listed in Sample
           Sample,      \* set of codes: z0 + 2*[fixed] + 4*[daily] + 8 * SUM count(i, o) * (Dup+1)^((i-1)*NO + o)
+                       \*               + 2^20 * chunk code
           Deviations   \* subset of {"RangeTrimKeepsTail", "LimitBeforeRangeTrim", "BackwardMetaOverrun"}
 
 VARIABLES kind,  \* "fixed" | "variable"
           tfc,   \* "intraday" | "daily"
           st,    \* stored content of the bucket (symbol "A")
           z0,    \* offset class 0 lies exactly on the interval start
+          chk,   \* chunk code of the concretisation (see ChunkCodes)
           fl,    \* the year files holding st (implementation state)
           q,     \* query: [s, e : position, n : 0 (no limit) | 1.., dir : "first" | "last"]
-          mq,    \* multi mode only: [star, syms, cols, stB]  (bucket C holds the complement of bucket B)
+          mq,    \* multi mode only: [star, syms, cols, stB, het]  (bucket C holds the complement of bucket B)
           phase  \* "stored": content chosen, no query yet; "case": one complete case
 
-vars == <<kind, tfc, st, z0, fl, q, mq, phase>>
+vars == <<kind, tfc, st, z0, chk, fl, q, mq, phase>>
 
 NI   == NI0 + NI1
 Ivs  == 1..NI
@@ -99,11 +102,13 @@ Content == [Ivs -> [Offs -> 0..Dup]]
 DailyOK(c, tc) == tc = "daily" => \A i \in Ivs : IsFirst(i) => \A o \in Offs : c[i][o] = 0
 FixedOK(c, k)  == k = "fixed" => \A i \in Ivs : \A o \in Offs : c[i][o] <= (IF o = 0 THEN 1 ELSE 0)
 ContentOK(c, k, tc) == DailyOK(c, tc) /\ FixedOK(c, k)
-OfCode(code) == [i \in Ivs |-> [o \in Offs |-> ((code \div 8) \div Pow(Dup + 1, (i - 1) * NO + o)) % (Dup + 1)]]
+Big == 1048576
+OfCode(code) == [i \in Ivs |-> [o \in Offs |-> (((code % Big) \div 8) \div Pow(Dup + 1, (i - 1) * NO + o)) % (Dup + 1)]]
+ChunkOfCode(code) == code \div Big
 ZOfCode(code) == code % 2 = 1
 KindOfCode(code) == IF (code \div 2) % 2 = 1 THEN "fixed" ELSE "variable"
 ClassOfCode(code) == IF (code \div 4) % 2 = 1 THEN "daily" ELSE "intraday"
-ChunkOf == [i \in 1..NI0 |-> (ChunkCode \div Pow(10, NI0 - i)) % 10]
+ChunkOf == [i \in 1..NI0 |-> (chk \div Pow(10, NI0 - i)) % 10]
 Empty == [i \in Ivs |-> [o \in Offs |-> 0]]
 
 RowsOfIv(c, i) == FlattenSeq([o1 \in 1..NO |-> [d \in 1..c[i][o1 - 1] |-> [i |-> i, o |-> o1 - 1, d |-> d]]])
@@ -233,9 +238,10 @@ Hits(f, qq, z) == (IF "RangeTrimKeepsTail" \in Deviations /\ GuardTail(f, qq, z)
 Existing == {"A", "B", "C"}                   \* symbols with a bucket of this timeframe / attribute group
 AllSyms  == Existing \cup {"M"}               \* "M" does not exist
 ColNames == {"c1", "c2", "zz"}                \* two data columns of the bucket and an unknown name
-DataCols == <<"c1", "c2">>
 TimeCols == IF kind = "variable" THEN {"Epoch", "Nanoseconds"} ELSE {"Epoch"}
-FullCols == <<"Epoch">> \o DataCols \o (IF kind = "variable" THEN <<"Nanoseconds">> ELSE <<>>)
+\* mq.het: the bucket of C has one more data column than the buckets of A and B
+DataColsOf(sym) == IF sym = "C" /\ mq.het THEN <<"c1", "c2", "c3">> ELSE <<"c1", "c2">>
+ColsOf(sym) == <<"Epoch">> \o DataColsOf(sym) \o (IF kind = "variable" THEN <<"Nanoseconds">> ELSE <<>>)
 Complement(c) == [i \in Ivs |-> [o \in Offs |->
                     IF c[i][o] = 0 /\ ~(tfc = "daily" /\ IsFirst(i)) /\ ~(kind = "fixed" /\ o # 0) THEN 1 ELSE 0]]
 ContentOf(sym) == IF sym = "A" THEN st ELSE IF sym = "B" THEN mq.stB ELSE Complement(mq.stB)
@@ -246,30 +252,37 @@ AbsMulti(qq, z) ==
   LET want == IF mq.star THEN Existing ELSE mq.syms \cap Existing
   IN  [syms |-> want,
        rows |-> [s \in want |-> AbsQuery(ContentOf(s), qq, z)],
-       cols |-> IF mq.cols = <<>> THEN Range(FullCols) ELSE TimeCols \cup (Range(mq.cols) \cap Range(DataCols))]
+       cols |-> [s \in want |-> IF mq.cols = <<>> THEN Range(ColsOf(s))
+                                 ELSE TimeCols \cup (Range(mq.cols) \cap Range(DataColsOf(s)))]]
 
 \* ColumnSeriesMap.FilterColumns / ColumnSeries.Project: Epoch, the requested names in the requested order
 \* (unknown names skipped, repeated names repeated), Nanoseconds
 Project(have, want) == IF want = <<>> THEN have
                        ELSE SelectSeq(<<"Epoch">> \o want \o <<"Nanoseconds">>, LAMBDA c : c \in Range(have))
 \* DataService.executeQuery: "*" -> every symbol of the catalog; planner.Parse: unknown symbols contribute no
-\* files, no file at all is an error; one IOPlan per bucket, each with the range and the limit of the request
+\* files, no file at all is an error; one IOPlan per bucket, each with the range and the limit of the request;
+\* NumpyMultiDataset.Append refuses a bucket whose (projected) columns differ from the first one's: the whole
+\* request fails ("symbols in a query must have the same data type or be filtered by common columns")
 ImplMulti(qq, z, devs) ==
   LET asked == IF mq.star THEN Existing ELSE mq.syms
       found == asked \cap Existing
       res   == [s \in found |-> ImplQuery(Files(ContentOf(s), tfc), qq, z, devs)]
-  IN  IF found = {} THEN [err |-> "nofiles", syms |-> {}, rows |-> <<>>, cols |-> <<>>]
-      ELSE IF \E s \in found : res[s].err # "" THEN [err |-> "read", syms |-> {}, rows |-> <<>>, cols |-> <<>>]
-      ELSE [err |-> "", syms |-> found, rows |-> [s \in found |-> res[s].rows], cols |-> Project(FullCols, mq.cols)]
+      pc    == [s \in found |-> Project(ColsOf(s), mq.cols)]
+      none  == [err |-> "", syms |-> {}, rows |-> <<>>, cols |-> <<>>]
+  IN  IF found = {} THEN [none EXCEPT !.err = "nofiles"]
+      ELSE IF \E s \in found : res[s].err # "" THEN [none EXCEPT !.err = "read"]
+      ELSE IF \E s1, s2 \in found : pc[s1] # pc[s2] THEN [none EXCEPT !.err = "shape"]
+      ELSE [err |-> "", syms |-> found, rows |-> [s \in found |-> res[s].rows], cols |-> pc]
 
 (***************************************************************************)
 (* The enumerated space                                                    *)
 (***************************************************************************)
-\* <<kind, class, content, z0>>
+\* <<kind, class, content, z0, chunk code>>
 StoredSet == IF UseSample
-             THEN {<<KindOfCode(t), ClassOfCode(t), OfCode(t), ZOfCode(t)>> : t \in Sample}
-             ELSE UNION {UNION {{<<k, tc, c, z>> : c \in {x \in Content : ContentOK(x, k, tc)},
-                                                   z \in (IF k = "fixed" THEN {TRUE} ELSE BOOLEAN)}
+             THEN {<<KindOfCode(t), ClassOfCode(t), OfCode(t), ZOfCode(t), ChunkOfCode(t)>> : t \in Sample}
+             ELSE UNION {UNION {{<<k, tc, c, z, ch>> : c \in {x \in Content : ContentOK(x, k, tc)},
+                                                       z \in (IF k = "fixed" THEN {TRUE} ELSE BOOLEAN),
+                                                       ch \in (IF k = "fixed" THEN {0} ELSE ChunkCodes)}
                                 : tc \in Classes} : k \in Kinds}
 Bounds(z) == {p \in Positions : ValidPos(p, z)}
 RangeQueries(z) == [s : Bounds(z), e : Bounds(z), n : {0}, dir : {"first"}]
@@ -282,20 +295,23 @@ MultiQueries == {[s |-> 0, e |-> LastPos, n |-> 0, dir |-> "first"],
                  [s |-> 0, e |-> LastPos, n |-> 1, dir |-> "first"],
                  [s |-> 0, e |-> LastPos, n |-> 1, dir |-> "last"]}
 ColLists == {<<>>} \cup UNION {[1..n -> ColNames] : n \in 1..ColMax}
-NoMulti == [star |-> FALSE, syms |-> {}, cols |-> <<>>, stB |-> Empty]
+NoMulti == [star |-> FALSE, syms |-> {}, cols |-> <<>>, stB |-> Empty, het |-> FALSE]
 OtherStored == IF UseSample THEN {OfCode(t) : t \in {x \in Sample : KindOfCode(x) = kind /\ ClassOfCode(x) = tfc}}
                ELSE {c \in Content : ContentOK(c, kind, tfc)}
-MultiReqs == [star : {FALSE}, syms : (SUBSET AllSyms) \ {{}}, cols : ColLists, stB : OtherStored]
-        \cup [star : {TRUE}, syms : {{}}, cols : ColLists, stB : OtherStored]
+ShortColLists == {c \in ColLists : Len(c) <= 1}
+MultiReqs == [star : {FALSE}, syms : (SUBSET AllSyms) \ {{}}, cols : ColLists, stB : OtherStored, het : {FALSE}]
+        \cup [star : {TRUE}, syms : {{}}, cols : ColLists, stB : OtherStored, het : {FALSE}]
+        \cup [star : {FALSE}, syms : (SUBSET AllSyms) \ {{}}, cols : ShortColLists, stB : OtherStored, het : {TRUE}]
+        \cup [star : {TRUE}, syms : {{}}, cols : ShortColLists, stB : OtherStored, het : {TRUE}]
 
 NoQuery == [s |-> 0, e |-> 0, n |-> 0, dir |-> "first"]
-Init == /\ \E t \in StoredSet : kind = t[1] /\ tfc = t[2] /\ st = t[3] /\ z0 = t[4] /\ fl = Files(t[3], t[2])
+Init == /\ \E t \in StoredSet : kind = t[1] /\ tfc = t[2] /\ st = t[3] /\ z0 = t[4] /\ chk = t[5] /\ fl = Files(t[3], t[2])
         /\ q = NoQuery /\ mq = NoMulti /\ phase = "stored"
 Ask  == /\ phase = "stored" /\ phase' = "case"
         /\ IF Mode = "range" THEN q' \in RangeQueries(z0) /\ mq' = NoMulti
            ELSE IF Mode = "limit" THEN q' \in LimitQueries(st, z0) /\ mq' = NoMulti
            ELSE q' \in MultiQueries /\ mq' \in MultiReqs
-        /\ UNCHANGED <<kind, tfc, st, z0, fl>>
+        /\ UNCHANGED <<kind, tfc, st, z0, chk, fl>>
 Next == Ask
 Spec == Init /\ [][Next]_vars
 
@@ -311,8 +327,10 @@ MultiRefinesAbs == (Mode = "multi" /\ phase = "case") =>
   LET r == ImplMulti(q, z0, {})
       a == AbsMulti(q, z0)
   IN  IF a.syms = {} THEN r.err = "nofiles"
-      ELSE /\ r.err = "" /\ r.syms = a.syms /\ \A s \in a.syms : r.rows[s] = a.rows[s]
-           /\ Range(r.cols) = a.cols
+      \* the only refusal that is tolerated: buckets of different shapes asked for without a common column list
+      ELSE IF r.err = "shape" THEN mq.het /\ "C" \in a.syms /\ Cardinality(a.syms) > 1 /\ mq.cols = <<>>
+      ELSE /\ r.err = "" /\ r.syms = a.syms
+           /\ \A s \in a.syms : r.rows[s] = a.rows[s] /\ Range(r.cols[s]) = a.cols[s]
 
 (***************************************************************************)
 (* Output of the cases for the replay into the real code                   *)
@@ -321,7 +339,7 @@ Enc(rows) == [k \in 1..Len(rows) |-> <<rows[k].i, rows[k].o, rows[k].d>>]
 Tup(c) == [i \in 1..NI |-> [o1 \in 1..NO |-> c[i][o1 - 1]]]
 EmitSingle ==
   LET k == ImplQuery(fl, q, z0, Deviations)
-  IN  PrintT(<<"CASE", ToJson([kind |-> kind, tfc |-> tfc, st |-> Tup(st), z |-> z0,
+  IN  PrintT(<<"CASE", ToJson([kind |-> kind, tfc |-> tfc, st |-> Tup(st), z |-> z0, chk |-> chk,
                               s |-> q.s, e |-> q.e, n |-> q.n, dir |-> q.dir,
                               expect |-> Enc(AbsQuery(st, q, z0)),
                               unl |-> Enc(AbsRange(st, q.s, q.e, z0)),
@@ -334,7 +352,7 @@ EmitMulti ==
   IN  PrintT(<<"CASE", ToJson([kind |-> kind, tfc |-> tfc, st |-> Tup(st), stB |-> Tup(mq.stB),
                               stC |-> Tup(Complement(mq.stB)), z |-> z0,
                               s |-> q.s, e |-> q.e, n |-> q.n, dir |-> q.dir,
-                              star |-> mq.star, syms |-> mq.syms, cols |-> mq.cols,
+                              star |-> mq.star, syms |-> mq.syms, cols |-> mq.cols, het |-> mq.het,
                               esyms |-> a.syms, erows |-> [x \in a.syms |-> Enc(a.rows[x])], ecols |-> a.cols,
                               kerr |-> k.err, krows |-> [x \in k.syms |-> Enc(k.rows[x])], kcols |-> k.cols,
                               hit |-> UNION {Hits(Files(ContentOf(x), tfc), q, z0) : x \in a.syms}])>>)
